@@ -113,6 +113,13 @@ def run_diff(case: Dict[str, Any]) -> Dict[str, Any]:
                     if type(ig).__name__ == name:
                         rp = update_instruction_generator(rp, ig)
                         cnt["c15_reinjections"] += 1
+                if inject and done > 0 and var == 1 and cnt["c15_parts_seen"] % 3 == 2:
+                    # ... or hands the payload the generators it already has
+                    from nrel.hive.runner.runner_payload_ops import set_instruction_generators
+
+                    rp = set_instruction_generators(rp, tuple(rp.u.step_update.ordered_instruction_generators))
+                    cnt["c15_generator_swaps"] += 1
+                cnt["c15_parts_seen"] += 1
                 with quiet_stdout():
                     rp = hc.crank(rp, a).runner_payload
                 done += a
